@@ -130,7 +130,9 @@ def run(pid, tier, replay=None):
     known_hit = {}
     for sig in sorted(agg['fails']):
         fl = agg['fails'][sig]
-        ent = _findings.match(known, sig)
+        ent = _findings.match(known, sig, fl[0].get('attribs', ()))
+        if ent is not None and not all(_findings.match([ent], sig, f.get('attribs', ())) for f in fl):
+            ent = None
         if ent is not None:
             known_hit.setdefault(ent['signature'], [ent, 0])[1] += len(fl)
         else:
@@ -152,6 +154,10 @@ def run(pid, tier, replay=None):
             pid, path, sig, len(fl), json.dumps(f.get('detail'), default=str)[:400]))
         reported.append({'signature': sig, 'replay': path, 'cases': len(fl)})
         rc = 1
+    if violations:
+        with open(os.path.join(env.VERIF, 'replays', '%s_all_failing_signatures.txt' % pid), 'w') as f:
+            for sig, fl in violations:
+                f.write('%s\t%d\t%s\n' % (sig, len(fl), json.dumps(fl[0].get('detail'), default=str)[:300]))
     if len(violations) > MAX_REPORTED:
         print('... %d further distinct failing signatures not listed' % (len(violations) - MAX_REPORTED))
 
